@@ -136,9 +136,8 @@ func daStream(t *testing.T, e *vgen.Env, res *vgen.Result, tmp string, crash boo
 		for k, v := range r.FaultsServed {
 			res.Distribution["da-ingress:request-failed:"+k] += v
 		}
-		res.Distribution["da-ingress:retrieve-rounds"] += r.Rounds
 		for _, p := range r.Procs {
-			res.Distribution["da-ingress:requests-served"] += len(p.Reqs)
+			res.Distribution["da-ingress:requests-served-for-existing-heights"] += p.RealReqs // polls of the tip depend on scheduling
 			if p.Quiescent {
 				res.Count("da-ingress:processes-run-to-quiescence")
 			}
